@@ -1651,7 +1651,11 @@ class Torrent():
             # Convert "creation date" to datetime.datetime and "private" to
             # bool, but only if they exist
             if b'creation date' in metainfo_enc:
-                torrent.creation_date = metainfo_enc[b'creation date']
+                try:
+                    torrent.creation_date = metainfo_enc[b'creation date']
+                except (ValueError, OverflowError, OSError) as e:
+                    # Not a number or not a representable time stamp
+                    raise error.MetainfoError(f"Invalid 'creation date': {e}")
             if b'private' in metainfo_enc.get(b'info', {}):
                 torrent.private = metainfo_enc[b'info'][b'private']
 
